@@ -73,7 +73,11 @@ Inductive item :=
 | IProbe (c : nat) (vals : list cval) (o : opnd)
 | IAll (c : nat) (dom : list Z)                 (* all ordered pairs over dom^k *)
 | IRow (c : nat) (dom : list Z) (xv : list Z)    (* x fixed, y ranges over dom^k *)
-| IPair (c : nat) (xv : list Z) (c' : nat) (yv : list Z).  (* two distinct int-valued instances, coded *)
+| IPair (c : nat) (xv : list Z) (c' : nat) (yv : list Z)   (* two distinct int-valued instances, coded *)
+(** a history on two int-valued instances of one class: compare; hash both; compare again;
+    optionally assign field number j := z on x and compare a third time.  Hashing is not in the
+    model: it must not change what the comparisons answer. *)
+| IHist (c : nat) (xv yv : list Z) (mut : option (nat * Z)).
 
 Inductive chain_seen :=
 | SeenErr                                         (* a definition raised ValueError *)
@@ -116,6 +120,13 @@ Definition digit (o : obs1) : nat :=
 Fixpoint code (l : list obs1) : nat :=
   match l with [] => 0 | o :: r => digit o + 4 * code r end.
 
+Fixpoint set_nth {A} (j : nat) (z : A) (l : list A) : list A :=
+  match l, j with
+  | [], _ => []
+  | _ :: r, O => z :: r
+  | a :: r, S j' => a :: set_nth j' z r
+  end.
+
 Definition run_item (chain : list cls) (sc : script) (it : item) : iout :=
   match it with
   | IProbe c vals o =>
@@ -138,6 +149,15 @@ Definition run_item (chain : list cls) (sc : script) (it : item) : iout :=
   | IPair c xv c' yv =>
       OAll [code (run_pair chain sc (mk_inst c (attrs_at chain c) (map Vi xv))
                     (OInst (mk_inst c' (attrs_at chain c') (map Vi yv))) false)]
+  | IHist c xv yv mut =>
+      let attrs := attrs_at chain c in
+      let y := OInst (mk_inst c attrs (map Vi yv)) in
+      let c1 := code (run_pair chain sc (mk_inst c attrs (map Vi xv)) y false) in
+      OAll (c1 :: c1 ::
+            match mut with
+            | None => []
+            | Some (j, z) => [code (run_pair chain sc (mk_inst c attrs (map Vi (set_nth j z xv))) y false)]
+            end)
   end.
 
 Definition model_chain (chain : list layer) (sc : script) (items : list item) : chain_seen :=
@@ -214,4 +234,46 @@ Proof.
   - inversion H; subst. now apply resfld_eqb_spec.
   - apply chain_seen_eqb_spec in H. congruence.
   - inversion H; subst. now apply chain_seen_eqb_spec.
+Qed.
+
+(** ** Script-level tie (supplementary evidence, never an alarm).
+
+    The harness parses the source text of the REAL generated [__eq__] of a class
+    ([inspect.getsource]; key helpers resolved through the function's globals) into the
+    model's script shape; [script_case_ok] checks that it is literally the script
+    [make_eq_script] derives from that class's field list.  Where it holds, [eq_is_script],
+    [eq_iff] and [eq_short_circuit] speak about the real script of that class for ALL
+    operand pairs, not only the sampled ones. *)
+Record script_case := SC {
+  sc_fields : list fspec;                       (* complete field list with the arguments given *)
+  sc_chain : list (name * option keyid)         (* parsed [and] chain; [] = [return True] *)
+}.
+
+Definition term_eqb (a : eq_term) (b : name * option keyid) : bool :=
+  match a with ECmp n k => Nat.eqb n (fst b) && optk_eqb k (snd b) end.
+
+Fixpoint terms_eqb (a : list eq_term) (b : list (name * option keyid)) : bool :=
+  match a, b with
+  | [], [] => true
+  | x :: a', y :: b' => term_eqb x y && terms_eqb a' b'
+  | _, _ => false
+  end.
+
+Definition script_model_of (c : script_case) : option (list eq_term) :=
+  match build_fields (sc_fields c) with Ok fs => Some (make_eq_script fs) | VErr => None end.
+
+Definition script_case_ok (c : script_case) : bool :=
+  match script_model_of c with Some sc => terms_eqb sc (sc_chain c) | None => false end.
+
+Lemma script_case_ok_sound c :
+  script_case_ok c = true ->
+  exists fs, build_fields (sc_fields c) = Ok fs /\
+             make_eq_script fs = map (fun p => ECmp (fst p) (snd p)) (sc_chain c).
+Proof.
+  unfold script_case_ok, script_model_of. destruct (build_fields (sc_fields c)) as [fs|]; [|discriminate].
+  intros H. exists fs. split; [reflexivity|].
+  generalize dependent (sc_chain c). induction (make_eq_script fs) as [|[n k] r IH]; intros [|[m j] l] H;
+    cbn in *; try discriminate; [reflexivity|].
+  apply andb_true_iff in H as [H1 H2]. apply andb_true_iff in H1 as [Hn Hk].
+  apply Nat.eqb_eq in Hn. apply optk_eqb_spec in Hk. subst. f_equal. now apply IH.
 Qed.
